@@ -15,11 +15,15 @@ use crate::c01::prog_shape;
 use crate::core::*;
 use crate::mutate::*;
 use crate::pipeline::*;
+use crate::pipeline::{KC, PC};
 use crate::prog::*;
 use crate::with_config;
 
 #[derive(Clone, Debug, Serialize, Deserialize)]
 pub struct Case {
+    /// STARK mode: the transcript of a STARK proof (instance + config) instead of a PLONK proof
+    #[serde(default)]
+    pub stark: Option<(crate::stark::Instance, crate::c09::SCfg)>,
     pub st: Statement,
     pub sched: Sched,
     pub entropy: Entropy,
@@ -30,9 +34,18 @@ pub struct Case {
 
 pub fn gen(rng: &mut Rng, _tier: Tier) -> Value {
     let st = draw_statement(rng, 20, false, false);
+    let mut rk = rng.sub("stark");
+    let stark = if rk.chance(1, 3) {
+        let log_n = rk.range(2, 7);
+        let inst = if rk.chance(1, 2) { crate::c10::gen_lookup_instance(&mut rk, log_n) } else { crate::stark::gen_instance(&mut rk, log_n, 3, true) };
+        let cfg = crate::c09::SCfg::draw(&mut rk, log_n, inst.def.degree, false);
+        Some((inst, cfg))
+    } else {
+        None
+    };
     let mut rs = rng.sub("schedule");
     let mut re = rng.sub("entropy");
-    serde_json::to_value(Case { st, sched: Sched::draw(&mut rs), entropy: Entropy::draw(&mut re), only: None }).unwrap()
+    serde_json::to_value(Case { stark, st, sched: Sched::draw(&mut rs), entropy: Entropy::draw(&mut re), only: None }).unwrap()
 }
 
 /// Challenges as ordered groups: (name, words, whole) — `whole`: the group is one challenge (an
@@ -298,7 +311,208 @@ fn exec_c<C: GenericConfig<D, F = F>>(case: &Case, rep: &mut Report) {
 
 pub fn exec(case: &Value, rep: &mut Report) {
     let case: Case = serde_json::from_value(case.clone()).expect("malformed C04 case");
+    if let Some((inst, _)) = &case.stark {
+        return crate::with_stark!(inst.def, exec_stark_h, &case, rep);
+    }
     with_config!(case.st.cfg.hash, exec_c, &case, rep)
+}
+
+// ------------------------------------------------------------------ STARK transcripts
+
+fn stark_groups(c: &starky::proof::StarkProofChallenges<F, D>) -> Groups {
+    let ev = |e: &FE| <FE as FieldExtension<D>>::to_basefield_array(e).iter().map(|x: &F| x.to_canonical_u64()).collect::<Vec<_>>();
+    let mut g: Groups = Vec::new();
+    let lk: Vec<u64> = c.lookup_challenge_set.as_ref().map(|s| s.challenges.iter().flat_map(|ch| [ch.beta.to_canonical_u64(), ch.gamma.to_canonical_u64()]).collect()).unwrap_or_default();
+    g.push(("lookup_challenges".into(), lk, false));
+    g.push(("stark_alphas".into(), c.stark_alphas.iter().map(|x| x.to_canonical_u64()).collect(), false));
+    g.push(("stark_zeta".into(), ev(&c.stark_zeta), true));
+    g.push(("fri_alpha".into(), ev(&c.fri_challenges.fri_alpha), true));
+    for (i, b) in c.fri_challenges.fri_betas.iter().enumerate() {
+        g.push((format!("fri_beta[{i}]"), ev(b), true));
+    }
+    g.push(("fri_pow_response".into(), vec![c.fri_challenges.fri_pow_response.to_canonical_u64()], false));
+    g.push(("fri_query_indices".into(), c.fri_challenges.fri_query_indices.iter().map(|&x| x as u64).collect(), true));
+    g
+}
+
+/// ROUND-MODEL, STARK: public inputs, config -> trace cap -> lookup challenges -> auxiliary cap ->
+/// (alpha', simulating zetas, zeta', bound constraint evaluations) -> alphas -> quotient cap -> zeta ->
+/// openings -> FRI.
+fn stark_first_group_after(path: &Path) -> Option<usize> {
+    let c = path_str(path);
+    if c.starts_with("public_inputs") || c.starts_with("proof/trace_cap") {
+        Some(0)
+    } else if c.starts_with("proof/auxiliary_polys_cap") {
+        Some(1)
+    } else if c.starts_with("proof/quotient_polys_cap") {
+        Some(2)
+    } else if c.starts_with("proof/openings") {
+        Some(3)
+    } else if c.starts_with("proof/opening_proof/commit_phase_merkle_caps") {
+        match path.get(3) {
+            Some(Seg::I(i)) => Some(4 + *i),
+            _ => None,
+        }
+    } else if c.starts_with("proof/opening_proof/final_poly") || c.starts_with("proof/opening_proof/pow_witness") {
+        Some(usize::MAX) // resolved by the caller: the pow group
+    } else {
+        None
+    }
+}
+
+fn exec_stark_h<const COLS: usize, const PIS: usize>(case: &Case, rep: &mut Report) {
+    let (_, cfg) = case.stark.as_ref().unwrap();
+    if cfg.hash == "keccak" {
+        exec_stark::<KC, COLS, PIS>(case, rep)
+    } else {
+        exec_stark::<PC, COLS, PIS>(case, rep)
+    }
+}
+
+fn exec_stark<C: GenericConfig<D, F = F>, const COLS: usize, const PIS: usize>(case: &Case, rep: &mut Report) {
+    use crate::c09::*;
+    use crate::stark::*;
+    use plonky2::iop::challenger::Challenger;
+    use starky::proof::StarkProofWithPublicInputs;
+    let (inst, scfg) = case.stark.as_ref().unwrap();
+    let scfg = match scfg.admissible(inst.log_n) {
+        Some(c) => c,
+        None => {
+            rep.skip("no admissible FRI parameters");
+            return;
+        }
+    };
+    let cfg = scfg.to_config();
+    case.sched.arm();
+    let proof = match stark_prove::<C, COLS, PIS>(&inst.def, &cfg, &inst.rows, &inst.pis) {
+        Ok(p) => p,
+        Err(_) => {
+            rep.skip("base:stark prove failed (reported by C09/C10)");
+            return;
+        }
+    };
+    rep.absorb_seams();
+    let stark = SimStark::<COLS, PIS>::new(inst.def.clone());
+    let chal = |p: &StarkProofWithPublicInputs<F, C, D>, cfg: &starky::config::StarkConfig| -> Option<Groups> {
+        guarded(|| p.get_challenges(&stark, &mut Challenger::<F, C::Hasher>::new(), None, None, false, cfg, None)).ok().map(|c| stark_groups(&c))
+    };
+    let base = match chal(&proof, &cfg) {
+        Some(g) => g,
+        None => {
+            rep.skip("get_challenges failed on honest STARK proof");
+            return;
+        }
+    };
+    let ncaps = proof.proof.opening_proof.commit_phase_merkle_caps.len();
+    let check_indices = scfg.num_queries * (inst.log_n + scfg.rate_bits) >= 64;
+    let base_sig = hash_value(&json!([inst.def, inst.log_n, inst.pis])) ^ hash_str(&scfg.class());
+    rep.probe("c04.stark_transcript");
+    if proof.proof.auxiliary_polys_cap.is_some() {
+        rep.probe("c04.stark_with_auxiliary_polys");
+    }
+    if proof.proof.quotient_polys_cap.is_none() {
+        rep.probe("c04.stark_without_quotient");
+    }
+    let tree = serde_json::to_value(&proof).unwrap();
+    let sh = shape(&tree);
+    let only_elem: Option<Fault> = case.only.as_ref().and_then(|v| v.get("elem")).and_then(|f| serde_json::from_value(f.clone()).ok());
+    let only_stmt: Option<String> = case.only.as_ref().and_then(|v| v.get("stmt")).and_then(|s| s.as_str().map(|s| s.to_string()));
+    let sviol = |rep: &mut Report, only: Value, comp: &str, detail: String| {
+        let mut c = case.clone();
+        c.only = Some(only);
+        rep.violation("C04", "challenge_independent_of_prior_message", &format!("C04|stark|{comp}"), detail, serde_json::to_value(&c).unwrap());
+    };
+    if only_stmt.is_none() {
+        for path in &sh.leaves {
+            let from = match stark_first_group_after(path) {
+                Some(usize::MAX) => 4 + ncaps,
+                Some(g) => g,
+                None => continue,
+            };
+            if let Some(f) = &only_elem {
+                if f.path() != path {
+                    continue;
+                }
+            }
+            let f = Fault::Elem { path: path.clone(), kind: "plus1".into(), seed: 0 };
+            let mut t = tree.clone();
+            if !apply(&mut t, &f) || canonical(&t) == canonical(&tree) {
+                continue;
+            }
+            let p2: StarkProofWithPublicInputs<F, C, D> = match serde_json::from_value(t) {
+                Ok(p) => p,
+                Err(_) => continue,
+            };
+            let sig = base_sig ^ hash_str(&path_str(path));
+            let new = match chal(&p2, &cfg) {
+                Some(g) => g,
+                None => {
+                    rep.case(sig, false);
+                    continue;
+                }
+            };
+            rep.fault(&format!("alter.stark.{}", component(path).split('/').take(3).collect::<Vec<_>>().join("/")));
+            rep.case(sig, true);
+            let same = unchanged(&base, &new, from, check_indices);
+            if !same.is_empty() {
+                sviol(rep, json!({"elem": f}), &component(path), format!("altering {} leaves {:?} unchanged", path_str(path), same));
+            }
+        }
+    }
+    if only_elem.is_none() {
+        let mut alts: Vec<(String, SCfg)> = Vec::new();
+        let mut a = |name: &str, f: &dyn Fn(&mut SCfg)| {
+            let mut c = scfg.clone();
+            f(&mut c);
+            alts.push((name.to_string(), c));
+        };
+        a("config.security_bits+1", &|c| c.security_bits += 1);
+        a("fri.rate_bits+1", &|c| c.rate_bits += 1);
+        a("fri.cap_height+1", &|c| c.cap_height += 1);
+        a("fri.proof_of_work_bits+1", &|c| c.pow_bits += 1);
+        a("fri.num_query_rounds+1", &|c| c.num_queries += 1);
+        a("fri.reduction_strategy.param", &|c| {
+            c.strategy = match &c.strategy {
+                Strat::Fixed(v) => {
+                    let mut v = v.clone();
+                    v.push(1);
+                    Strat::Fixed(v)
+                }
+                Strat::ConstantArityBits(a, b) => Strat::ConstantArityBits(*a, *b + 1),
+                Strat::MinSize(None) => Strat::MinSize(Some(3)),
+                Strat::MinSize(Some(k)) => Strat::MinSize(Some(*k + 1)),
+            }
+        });
+        let arities = cfg.fri_params(inst.log_n).reduction_arity_bits;
+        a("fri.reduction_strategy.kind", &|c| {
+            c.strategy = match &c.strategy {
+                Strat::Fixed(_) => Strat::MinSize(None),
+                _ => Strat::Fixed(arities.clone()),
+            }
+        });
+        for (name, c2) in alts {
+            if let Some(s) = &only_stmt {
+                if *s != name {
+                    continue;
+                }
+            }
+            let sig = base_sig ^ hash_str(&name);
+            let new = match chal(&proof, &c2.to_config()) {
+                Some(g) => g,
+                None => {
+                    rep.case(sig, false);
+                    continue;
+                }
+            };
+            rep.fault(&format!("alter.stark.statement.{name}"));
+            rep.case(sig, true);
+            let same = unchanged(&base, &new, 0, check_indices);
+            if !same.is_empty() {
+                sviol(rep, json!({"stmt": name}), &format!("statement/{name}"), format!("altering {name} leaves {:?} unchanged", same));
+            }
+        }
+    }
+    rep.sample(json!({"stark": [COLS, PIS], "rows": inst.rows.len(), "config": scfg.class(), "challenge_groups": base.iter().map(|g| g.0.clone()).collect::<Vec<_>>()}));
 }
 
 pub fn shrink(case: &Value) -> Vec<Value> {
